@@ -419,6 +419,7 @@ func GenC09(rng *rand.Rand, thorough bool, emit func(*Sx)) {
 	later := []cstep{{b64([]byte("resp")), "ok"}, {"=", "ok"}, {"", "ok"}, {"*", "star"}, {"%%%", "bad"}, {b64([]byte{0x80, 0, 0xff}), "ok"}}
 	chals := [][]byte{nil, []byte("challenge"), {0, 255, 10, 13}, []byte("a")}
 	genC09AfterErrors(rng, emit)
+	genC09LongResponse(rng, emit)
 	n := 0
 	for mode := 0; mode < 3; mode++ { // 0 plaintext+insecure, 1 implicit TLS, 2 plaintext without insecure
 		for nsteps := 0; nsteps <= 3; nsteps++ {
@@ -525,6 +526,51 @@ func GenC09(rng *rand.Rand, thorough bool, emit func(*Sx)) {
 						emit(RunConv(f.caseOf("C09", segStream(rng, f.out, nil, n%4, rawEOF))))
 					}
 				}
+			}
+		}
+	}
+}
+
+
+// genC09LongResponse: a SASL response (or initial response) line longer than the server's line limit that
+// arrives in two reads, the first of which is short well-formed base64: the mechanism must never be
+// given octets the client did not send as a complete line.
+func genC09LongResponse(rng *rand.Rand, emit func(*Sx)) {
+	for _, L_ := range []int{60, 200, 2000} {
+		for _, initial := range []bool{false, true} {
+			for _, lmtp := range []bool{false, true} {
+				cfg := DefaultCfg()
+				cfg.MaxLine = L_
+				cfg.LMTP = lmtp
+				cfg.Insecure, cfg.HasAuth, cfg.Auth = true, true, []string{"PLAIN"}
+				f := newF(cfg)
+				f.hello()
+				f.script.Auth = []AuthPlan{{Start: BNil, Steps: []SaslStep{{Challenge: []byte("c")}, {Done: true}}}}
+				n := L_ / 2
+				if L_ == 2000 {
+					n = 4000 // beyond RFC 4954's 12288 octets as well
+				}
+				long := "dXNlcjpwYXNz" + strings.Repeat("QUJD", n) + "\r\n"
+				var k int
+				if initial {
+					f.raw("AUTH PLAIN ")
+					k = len(f.out) + 12
+					f.raw(long)
+					f.expect(500)
+					f.add(L(A("max-events"), A("auth"), Num(0)))
+				} else {
+					f.cmd("AUTH PLAIN", 334)
+					f.cut()
+					k = len(f.out) + 12
+					f.raw(long)
+					f.expect(500)
+				}
+				f.add(L(A("max-events"), A("authnext"), Num(map[bool]int64{true: 0, false: 1}[initial])))
+				f.raw("MAIL FROM:<late@x>\r\n")
+				f.add(L(A("must-not-mail"), XS("late@x")))
+				f.add(L(A("expect-last"), Num(500)))
+				f.cuts = append(f.cuts, k, k+len(long)-12)
+				emit(RunConv(f.caseOf("C09", segStream(rng, f.out, f.cuts, 0, rawEOF))))
 			}
 		}
 	}
